@@ -51,7 +51,8 @@ def forwardref(
 
     module = _resolve_module_name(name, module)
     if module is not None:
-        name = name.replace(f"{module}.", "")
+        # Only a leading qualifier is the module; the text may contain it elsewhere.
+        name = name.removeprefix(f"{module}.")
 
     return ForwardRef(
         name,
